@@ -233,6 +233,24 @@ void CPCA(tensor *x, int scaling, size_t npc, CPCAMODEL *model)
     }
 
     while(1){ /* loop until convergence of t */
+      if(DVectorDVectorDotProd(t, t) == 0.f){
+        /* Null component: no block has any variance left, so the convergence
+         * criterion would be NaN forever. Scores, weights and loadings of this
+         * component are zero; the cumulative block variances do not change.
+         */
+        MatrixSet(T, 0.f);
+        TensorAppendMatrix(model->block_scores, T);
+        NewDVector(&local_blockvexp, Eb->order);
+        if(pc > 0){
+          for(k = 0; k < Eb->order; k++)
+            local_blockvexp->data[k] = model->block_expvar->d[pc-1]->data[k];
+        }
+        DVectorAppend(model->total_expvar, 0.f);
+        DVectorListAppend(model->block_expvar, local_blockvexp);
+        DelDVector(&local_blockvexp);
+        break;
+      }
+
       for(k = 0; k < Eb->order; k++){
         NewDVector(&p_b, Eb->m[k]->col);
        /*
